@@ -137,7 +137,7 @@ func rootName(e Expr) string {
 }
 
 func (g *asgGen) stmt() (Stmt, string) {
-	switch g.rng.IntN(16) {
+	switch g.rng.IntN(17) {
 	case 0, 1, 2, 3, 4, 5:
 		t := g.path(4)
 		return ES(Asg(t, g.value())), "store"
@@ -158,6 +158,9 @@ func (g *asgGen) stmt() (Stmt, string) {
 		t := V([]string{"v0", "v1", "v2"}[g.rng.IntN(3)])
 		ix, _ := g.indexExpr()
 		return ES(CallE(V("setk"), t, ix, g.value())), "store-via-parameter"
+	case 15:
+		// the callee assigns its parameter: by-value also when the argument reads a location that does not exist
+		return ES(CallE(V("setp"), g.path(3), g.value())), "assign-parameter"
 	case 13:
 		// store through a loop variable bound to a container element
 		t := g.path(2)
@@ -192,8 +195,12 @@ func (g *asgGen) dump(i int) Stmt {
 	return Pr(args...)
 }
 
+func c09Setp() *Func {
+	return &Func{Name: "setp", Params: []string{"p", "val"}, Body: Blk(ES(Asg(V("p"), V("val"))), ES(Asg(V("p"), N("1"))), &Return{X: V("p")})}
+}
+
 func c09Program(body []Stmt) *Program {
-	return &Program{Items: []any{c09Setk(), &Rule{Kind: "pattern", Body: &Block{Stmts: body}}}}
+	return &Program{Items: []any{c09Setk(), c09Setp(), &Rule{Kind: "pattern", Body: &Block{Stmts: body}}}}
 }
 
 // history builds a history of n statements, each followed by a dump of all state; a candidate
